@@ -179,3 +179,11 @@ func (c *Ctx) pickD() time.Duration {
 	}
 	return 10 * time.Minute
 }
+
+// simWorkers: simulation mode prints num behaviours per worker; checking mode uses all cores.
+func (c *Ctx) simWorkers(sim string) int {
+	if sim != "" {
+		return 16
+	}
+	return 0
+}
